@@ -340,3 +340,10 @@ def run(ctx: core.Ctx) -> None:
         trace_validation(ctx, ntid=48, npts=24)
     else:
         trace_validation(ctx, ntid=480, npts=40)
+
+    # per-call statement of the property under concurrent use (Reentrant.tla): the same calls from several threads at once
+    from ..drivers import threads  # noqa: PLC0415
+
+    threads.clause(ctx, ['relperm'])
+
+
